@@ -335,8 +335,18 @@ func (ev *Eval) ident(x *ast.Ident) *Val {
 	}
 	if ev.locals {
 		if (x.Name == "rangeindex" || x.Name == "iter") && ev.loop != nil {
-			if v := ev.rangeIndex(); v != nil {
+			if v := ev.rangeIndex(false); v != nil {
 				if x.Name == "iter" {
+					return vInt(arith("+", v.T, "1"), nil)
+				}
+				return v
+			}
+		}
+		if (x.Name == "outerindex" || x.Name == "outeriter") && ev.loop != nil {
+			// the range index of the nearest range-over-slice loop that strictly
+			// encloses the loop of this invariant
+			if v := ev.rangeIndex(true); v != nil {
+				if x.Name == "outeriter" {
 					return vInt(arith("+", v.T, "1"), nil)
 				}
 				return v
@@ -393,11 +403,14 @@ func (ev *Eval) object(obj types.Object) *Val {
 
 // rangeIndex returns the hidden index variable of a range-over-slice loop
 // (-1 before the first iteration; "iter" = rangeindex+1 = completed iterations).
-func (ev *Eval) rangeIndex() *Val {
+func (ev *Eval) rangeIndex(outer bool) *Val {
 	// this loop, or else the innermost enclosing range-over-slice loop
 	var best *loopInfo
 	for _, li := range ev.f.loops {
 		if !li.blocks[ev.loop.header] || !strings.HasPrefix(li.header.Comment, "rangeindex.loop") {
+			continue
+		}
+		if outer && li == ev.loop {
 			continue
 		}
 		if best == nil || len(li.blocks) < len(best.blocks) {
@@ -1764,7 +1777,7 @@ func (ev *Eval) scopeHas(e ast.Expr) bool {
 
 func (ev *Eval) identKnown(name string) bool {
 	switch name {
-	case "true", "false", "nil", "iter", "rangeindex":
+	case "true", "false", "nil", "iter", "rangeindex", "outeriter", "outerindex":
 		return true
 	}
 	if ev.isValueIdent(name) {
